@@ -7,10 +7,11 @@ CONSTANTS
   TFmts = {"default", "python", "yaml", "toml", "bad"}
   Indents = {"default", "0"}
   TxtIds = {"qstr1", "qstr2", "blit", "bboth", "bare", "baresx", "bbad", "bname", "texpo", "texpb", "advb", "advq", "advo"}
-  Argvs = {"ok", "badindent", "toomany", "unknownflag"}
+  Argvs = {"ok", "badindent", "toomany", "unknownflag", "flagafter", "dupflag", "dashdash"}
   SExts = {"any", ".py"}
   TExts = {"any"}
   Dbgs = {"off", "debug"}
+  PrintCross = "pairwise"
 INIT Init
 NEXT Next
 INVARIANT ExecOnlyFull
